@@ -1,5 +1,5 @@
 SPECIFICATION TraceSpec
-CONSTANT JudgeServes = TRUE
+CONSTANT JudgeServes = FALSE
 CONSTRAINT Progress
 POSTCONDITION Accepted
 CHECK_DEADLOCK FALSE
